@@ -157,6 +157,19 @@ fn run<T: Scalar>(c: &Case, xs: &[f64], a: f64, b: f64, mode: Mode, out: &mut Tr
         _ => c.n.max(1),
     };
     let negation = matches!(c.rel, Rel::NegationOdd | Rel::NegationRsi | Rel::NegationMinMax);
+    // recursive ratio views: their conditioning is that of the reference denominator (CU+CD resp.
+    // the leaky mean square), not of the input window; only the tolerance-based f64 comparisons
+    // look at it
+    let ref_den: Option<Vec<f64>> = if T::EXACT {
+        None
+    } else {
+        match &c.spec {
+            Spec::Un(Kind::LagRsi(n), _) => Some(crate::oracle::ehlers::laguerre_rsi(xs, *n).into_iter().map(|(_, d)| d).collect()),
+            Spec::Un(Kind::TrendFlex(n), _) => Some(crate::oracle::ehlers::trend_flex(xs, *n).into_iter().map(|(_, d)| d.sqrt()).collect()),
+            Spec::Un(Kind::ReFlex(n), _) => Some(crate::oracle::ehlers::re_flex(xs, *n).into_iter().map(|(_, d)| d.sqrt()).collect()),
+            _ => None,
+        }
+    };
     let mut big = 0f64;
     for t in 0..xs.len() {
         big = big.max(xs[t].abs());
@@ -192,6 +205,12 @@ fn run<T: Scalar>(c: &Case, xs: &[f64], a: f64, b: f64, mode: Mode, out: &mut Tr
                     // judged on well-conditioned windows only
                     let off = if negation { 0.0 } else { b.abs() / a.max(1e-300) };
                     // CoG divides by the sum of the window: ill-conditioned when that sum cancels
+                    if let Some(d) = &ref_den {
+                        if !(d[t] > big / 65536.0) {
+                            out.count("f64_steps_skipped_reference_denominator_small", 1);
+                            continue;
+                        }
+                    }
                     let cancels = c.name == "CenterOfGravity" && !(w.iter().sum::<f64>().abs() > w.iter().map(|x| x.abs()).sum::<f64>() / 256.0);
                     if cancels || !(hi - lo > (big + off) / 256.0) {
                         out.count("f64_steps_skipped_ill_conditioned_window", 1);
